@@ -2549,7 +2549,19 @@ fn respell(rng: &mut Rng, hist: &mut Hist, p: &Program) -> Program {
             }
         }
     }
-    for (_, v) in q.api.iter_mut() {
+    for (n, v) in q.api.iter_mut() {
+        // white space inside the parameter list of an API name: `F( X ,Y )`
+        if n.len() > 2 && rng.chance(1, 3) {
+            let mut out = Vec::new();
+            for (i, t) in n.iter().enumerate() {
+                out.push(t.clone());
+                if i >= 1 && i + 1 < n.len() && rng.chance(1, 3) {
+                    out.push(if rng.chance(1, 2) { Tok::Ws } else { Tok::Cmt(2) });
+                    hist.add("spelling:api-name-ws");
+                }
+            }
+            *n = out;
+        }
         let mut out = Vec::new();
         for t in v.iter() {
             if matches!(t, Tok::Ws | Tok::Cmt(0)) && rng.chance(1, 3) {
@@ -3210,20 +3222,30 @@ pub fn run(args: &Args, out: &mut Out) {
         all.push(q);
     }
     // an API define whose value holds a line end is rejected (fix 3c81ed5), whatever else the program holds
-    for _ in 0..(n / 100).max(10) {
+    for _ in 0..(n / 50).max(20) {
         let i = rng.below(all.len() as u64) as usize;
         let mut q = all[i].clone();
         if q.strict {
             continue;
         }
         let at = rng.below(q.api.len() as u64 + 1) as usize;
-        let v = match rng.below(3) {
+        let r = rng.below(7);
+        let v = match r {
             0 => vec![Tok::Int("1".into()), Tok::Cmt(5), Tok::Int("2".into())],
             1 => vec![Tok::Cmt(5)],
-            _ => vec![Tok::Id("P".into()), Tok::Ws, Tok::Cmt(5)],
+            2 => vec![Tok::Id("P".into()), Tok::Ws, Tok::Cmt(5)],
+            _ => vec![Tok::Id("P".into())],
         };
-        q.api.insert(at, (vec![Tok::Id("NL".into())], v));
-        hist.add("api:value-with-line-end");
+        // ... and API names that are no macro head (`InvalidDefine`, as for the #define line), or one only with the value
+        let name = match r {
+            3 => vec![Tok::Int("1".into())],
+            4 => vec![Tok::Id("NL".into()), Tok::LParen],
+            5 => vec![Tok::Id("NL".into()), Tok::LParen, Tok::Int("1".into()), Tok::RParen],
+            6 => vec![Tok::LParen, Tok::Id("NL".into()), Tok::RParen],
+            _ => vec![Tok::Id("NL".into())],
+        };
+        q.api.insert(at, (name, v));
+        hist.add(if r < 3 { "api:value-with-line-end" } else { "api:malformed-name" });
         all.push(q);
     }
     let programs = all.len() as u64;
